@@ -124,6 +124,20 @@ Definition rmap_eqb (A B : rmap) : bool :=
   Nat.eqb (length A) (length B)
   && forallb (fun e => match blookup (fst e) B with Some r => restr_eqb (snd e) r | None => false end) A.
 
+(* exact comparison (value slices in the same order) for the faithful summaries of Model.v section 6 *)
+Definition vals_eqb_exact (a b : option (list bytes)) : bool :=
+  match a, b with
+  | None, None => true
+  | Some x, Some y => list_eqb bytes_eqb x y
+  | _, _ => false
+  end.
+Definition rmap_eqb_exact (A B : rmap) : bool :=
+  Nat.eqb (length A) (length B)
+  && forallb (fun e => match blookup (fst e) B with
+                       | Some r => Bool.eqb (r_present (snd e)) (r_present r) && Bool.eqb (r_absent (snd e)) (r_absent r)
+                                   && vals_eqb_exact (r_vals (snd e)) (r_vals r)
+                       | None => false end) A.
+
 Definition nlist_eqb := list_eqb N.eqb.
 Fixpoint nodup_sorted (l : list N) : bool :=
   match l with
@@ -209,7 +223,7 @@ Fixpoint np_model (eps : list (N * (labels * list N))) (pars : list (N * labels)
       match outs with
       | [] => false
       | out :: outs' =>
-          existsb (fun R => nlist_eqb (nsort_dup (iter_candidates pest_exact (np_of eps pars) R)) out) (perms (restrictions a))
+          existsb (fun R => nlist_eqb (nsort_dup (iter_candidates pest_exact (np_of eps pars) R)) out) (perms (restrictions_f a))
           && np_model eps pars ops' outs'
       end
   end.
@@ -245,7 +259,9 @@ Definition check_case (c : case) : bool * bool :=
   match c with
   | CIdx ops outs => (list_eqb obs_eqb (run_obs ord_id empty_st ops) outs, ok_trace ops outs)
   | CRestr a real maps evals =>
-      (rmap_eqb (restrictions a) real && list_eqb Bool.eqb (map (eval a) maps) evals,
+      (rmap_eqb (restrictions a) real              (* set-level summaries (section 2 of Model.v) *)
+       && rmap_eqb_exact (restrictions_f a) real   (* slice-level summaries: same values in the same order *)
+       && list_eqb Bool.eqb (map (eval a) maps) evals,
        zipb (fun L e => implb e (satisfies_b real L)) maps evals)
   | CRi ops outs => (list_eqb nlist_eqb (ri_run ri_empty ops) outs, ok_ri [] ops outs)
   | CNv ops outs => (list_eqb strat_out_eqb (nv_run nv_empty ops) outs, ok_nv [] ops outs)
